@@ -75,6 +75,7 @@ type FuncExec struct {
 	resNames   []string
 	preAxioms  bool
 	selfVars   map[*ssa.FreeVar]bool
+	pendingLogs []string
 	regionBefore func(ssa.Instruction) bool
 	specErrs   []string
 	decEntry   []Term
@@ -376,6 +377,29 @@ func (fx *FuncExec) run() {
 		for _, cl := range fx.con.Decr {
 			fx.decEntry = append(fx.decEntry, env.intTerm(cl.Expr))
 			fx.noteSpecErr(env, cl)
+		}
+	}
+	// ghost logs of logged callees start empty
+	for _, b := range fn.Blocks {
+		for _, in := range b.Instrs {
+			if cl, ok := in.(*ssa.Call); ok {
+				name := calleeNameOnly(fx.callOrd[in])
+				if fx.pk.logged[name] {
+					if _, have := st.logs[name]; !have {
+						var comps []Val
+						rv := st.freshVal(cl.Type(), "logshape", 0)
+						if tv, ok := rv.(TupleV); ok {
+							comps = tv.E
+						} else {
+							comps = []Val{rv}
+						}
+						if st.logs == nil {
+							st.logs = map[string]callLog{}
+						}
+						st.logs[name] = fx.freshLog(st, name, comps, true)
+					}
+				}
+			}
 		}
 	}
 	fx.entry = st.snapshot()
